@@ -150,9 +150,11 @@ def generate(name):
 
 def struct_ok(text, parsed):
     """executes with its own imports only; exactly the parser's classes, each equal to the parsed one"""
-    from vf.common import exec_module, classes_of, get_object_classes
+    from vf.common import exec_generated, classes_of, get_object_classes
 
-    ns = exec_module(text)
+    ns = exec_generated(text)
+    if ns is None:
+        return None
     gen = classes_of(ns)
     classes = []
     for c in get_object_classes(*parsed):
